@@ -287,8 +287,25 @@ def run_impl(inp, extra_kwargs=None, predictor=None):
 # ---------------------------------------------------------------------------------------------
 # monitor request
 
-def cfg_tokens(inp, maxsize=30, maxn=10, vel=None, drop=False, opt=True):
+_LIMITS = {}
+
+
+def code_limits():
+    """(MAX_SUB_NET_SIZE, MAX_NEIGHBORS) as the code under test defines them: the monitor judges
+    'raises exactly when a sub-net exceeds MAX_SUB_NET_SIZE' against the code's own constant (read
+    once per process, before any harness patches the class attribute)"""
+    if not _LIMITS:
+        from trackpy.linking.linking import Linker
+        _LIMITS["v"] = (int(Linker.MAX_SUB_NET_SIZE), int(Linker.MAX_NEIGHBORS))
+    return _LIMITS["v"]
+
+
+def cfg_tokens(inp, maxsize=None, maxn=None, vel=None, drop=False, opt=True):
     w, B = weights(inp["sr"])
+    if maxsize is None:
+        maxsize = code_limits()[0]
+    if maxn is None:
+        maxn = code_limits()[1]
     # numba / hybrid: numba_link also raises when a source has more than 9 forward candidates
     ncap = inp.get("strategy") in ("numba", "hybrid")
     return "w=%s B=%d mem=%d maxn=%d maxsize=%d vel=%s drop=%d opt=%d ncap=%d" % (
@@ -309,11 +326,13 @@ def lrun_line(inp, levels, **kw):
 # ---------------------------------------------------------------------------------------------
 # independent oracle: C01 validity + C02 optimality re-stated on the labelled output
 
-def oracle_levels(inp, levels, check_optimal=True, vel=None, maxn=10):
+def oracle_levels(inp, levels, check_optimal=True, vel=None, maxn=None):
     """returns None if the statement holds on this output, else a message"""
     from scipy.optimize import linear_sum_assignment
     w, B = weights(inp["sr"])
     memory = inp["memory"]
+    if maxn is None:
+        maxn = code_limits()[1]
 
     def d2(p, q):
         return sum(wi * (a - b) ** 2 for wi, a, b in zip(w, p, q))
@@ -411,8 +430,10 @@ def expected_oversize_py(inp, levels_before, t, pts, maxsize, vel=None):
 
 # ---------------------------------------------------------------------------------------------
 
-def run_movie_case(ctx, inp, want=("valid", "optimal"), prop="C01", maxsize=30):
+def run_movie_case(ctx, inp, want=("valid", "optimal"), prop="C01", maxsize=None):
     """one movie through the implementation and the monitor"""
+    if maxsize is None:
+        maxsize = code_limits()[0]
     res = Result()
     levels = run_impl(inp)
     if levels is None:
